@@ -24,7 +24,7 @@ def run(cs):
         if b.returncode != 0:
             return name, 'NOBUILD', b.stderr[-300:]
         ev = tempfile.mkdtemp(prefix='ev-', dir='/tmp')
-        r = subprocess.run(['/verif/bin/crverif', '-property', cs['property'], '-evidence', ev], env=dict(ENV, VERIF_REPO=d), capture_output=True, text=True)
+        r = subprocess.run([os.environ.get('CRVERIF_BIN', '/verif/bin/crverif'), '-property', cs['property'], '-evidence', ev], env=dict(ENV, VERIF_REPO=d), capture_output=True, text=True)
         shutil.rmtree(ev, ignore_errors=True)
         out = r.stdout + r.stderr
         rules = sorted(set(l.split('rule=')[1].split()[0] for l in out.splitlines() if 'rule=' in l and 'KNOWN' not in l))
